@@ -113,6 +113,7 @@ TInvReal ==
          term == SelectSeq(o.replies, LAMBDA r : ~r.progress)
          prog == SelectSeq(o.replies, LAMBDA r : r.progress) IN
      /\ o.esc = "" /\ o.alive /\ o.calls = 1 /\ o.argsOk
+     /\ o.valuesOk                                   \* the YIELD carries the endpoint's value, the ERROR what was raised
      /\ Len(term) = 1 /\ term[1].t = ReplyOf(E.beh) /\ term[1].req = E.req
      /\ o.replies[Len(o.replies)] = term[1]                              \* nothing after the terminal reply
      /\ Len(prog) = (IF E.rp THEN 1 ELSE 0)
